@@ -16,7 +16,7 @@
 (*   kind \in run ambiguous nomethod rejected badforward internal raised   *)
 (*   entered[j].next.has = TRUE iff body j delegated with call_next/next   *)
 (***************************************************************************)
-EXTENDS ResolveImpl, TLC, Json, IOUtils
+EXTENDS Dependent, TLC, Json, IOUtils
 
 Cases == JsonDeserialize(IOEnv.VF_CASES)
 
@@ -164,6 +164,21 @@ C14Clause(st) ==
   IF ~C14Premise THEN "premise.subelem"
   ELSE LET c1 == C01Clause(st) IN IF c1 # "" THEN c1 ELSE C02Clause(st)
 
+(***************************************************************************)
+(* C10: value-dependent methods.  Applicability is value-level (Holds),    *)
+(* the order between annotations is TypeLE (a dependent type is preferred  *)
+(* over every static type comparable with its bound; equal bounds are      *)
+(* unordered).  st.obs.predlog lists every (dependent type, value) the     *)
+(* user's condition was asked about: the value must be an instance of the  *)
+(* bound.                                                                  *)
+(***************************************************************************)
+C10Clause(st) ==
+  LET P == st.obs.predlog IN
+  IF \E q \in DOMAIN P : ~Sat(W, P[q].t.bound, P[q].a.c) THEN "bound_guard"
+  ELSE LET c1 == C01Clause(st) IN
+       IF c1 # "" THEN "runs_iff_holds." \o c1
+       ELSE LET c2 == C02Clause(st) IN IF c2 = "" THEN "" ELSE "value_outcome." \o c2
+
 StepClause(st) ==
   LET c1 == IF "C01" \in Props THEN C01Clause(st) ELSE ""
       c2 == IF "C02" \in Props THEN C02Clause(st) ELSE ""
@@ -172,9 +187,16 @@ StepClause(st) ==
       c18 == IF "C18" \in Props THEN C18Clause(st) ELSE ""
       c19 == IF "C19" \in Props THEN C19Clause(st) ELSE ""
       c14 == IF "C14" \in Props THEN C14Clause(st) ELSE ""
+      c10 == IF "C10" \in Props THEN C10Clause(st)
+             ELSE IF "C10G" \in Props THEN
+                  (IF \E q \in DOMAIN st.obs.predlog : ~Sat(W, st.obs.predlog[q].t.bound, st.obs.predlog[q].a.c)
+                   THEN "bound_guard"
+                   ELSE LET c == C01Clause(st) IN IF c = "" THEN "" ELSE "runs_iff_holds." \o c)
+             ELSE ""
   IN IF c18 # "" THEN "C18:" \o c18
      ELSE IF c19 # "" THEN "C19:" \o c19
      ELSE IF c14 # "" THEN "C14:" \o c14
+     ELSE IF c10 # "" THEN "C10:" \o c10
      ELSE IF c1 # "" THEN "C01:" \o c1
      ELSE IF c2 # "" THEN "C02:" \o c2
      ELSE IF c7 # "" THEN "C07:" \o c7
@@ -235,7 +257,12 @@ Consume ==
          c  == StepClause(st)
          co == ClsOnly(MOf(st))
          ic == IF co THEN ImplConsistent(st) ELSE TRUE
-         ks == co /\ KFStep(st)
+         \* outside class-only worlds the signature alone decides (no Impl prediction available);
+         \* it needs at least two supplied positions there (the cross-position form of the artefact)
+         ks == IF co THEN KFStep(st)
+               ELSE "C10" \in Props /\
+                    \/ Len(st.call.pos) >= 2 /\ KFStep(st)
+                    \/ KF_pull_rank(W, MOf(st), st.call)
      IN
        /\ bad' = IF c # ""
                  THEN bad \o (IF bad = "" THEN "" ELSE ",") \o c \o "@" \o ToString(l) \o "#" \o Flag(ks /\ ic)
